@@ -72,6 +72,8 @@ def run(ctx):
             step = float(step_s)
             w = P.run_workflow(ctx, tr.rows(), tr.s, tr.j, step, keep_db=True, steps=("load", "classify", "grid"))
             if any(w["status"].get(k, ("x",))[0] != "ok" for k in ("load", "classify", "grid")):
+                ctx.corr_break(ob, {"input": {"truth": tr.describe(), "zeta_step": step_s}, "impl": {k: list(v) for k, v in w["status"].items()},
+                                    "no_longer_checks": "a planted record is loaded, classified and gridded with step %s" % step_s})
                 P.cleanup(w)
                 continue
             src = w["db"]
@@ -80,6 +82,15 @@ def run(ctx):
                 inp0 = {"truth": tr.describe(), "zeta_step": step_s, "command": cmd}
                 if r0[0] != "ok":
                     ctx.count("curve_not_assembled")
+                    bad = P.judged_failure(ctx, w["tables"], step, cmd, r0)
+                    if bad is not None:
+                        ctx.corr_break(ob, {"input": dict(inp0, reference=None), "impl": list(r0), "model": bad,
+                                            "no_longer_checks": "`spowtd %s` fails on a dataset for which the model assembles the curve" % cmd})
+                    continue
+                if not rows0 or any(v is None for _z, v in rows0):
+                    ctx.violation("impl-violation", "c09Holds", {"input": dict(inp0, reference=None), "impl": rows0, "oracle": {
+                        "name": "c09Holds", "result": False,
+                        "witness": {"why": "`spowtd %s` reports success and leaves no master curve" % cmd}}})
                     continue
                 scale = max(abs(v) for _z, v in rows0) + 1.0
                 # no reference: highest level is the origin
@@ -91,6 +102,8 @@ def run(ctx):
                         "witness": {"why": "without a reference the highest level is not the origin", "top": list(top)}}})
                 ks = sorted({int(round(z / step)) for z, _v in rows0})
                 chosen = rng.sample(ks, min(per, len(ks)))
+                if long_dry:
+                    chosen = sorted(set(chosen) | set(ks[:4]) | set(ks[len(ks) // 4::max(1, len(ks) // 6)][:4]))   # and deep references
                 for k in chosen:
                     ref = format(Decimal(k) * Decimal(step_s), "f")
                     r, rows = run_ref(ctx, src, cmd, ref)
@@ -107,6 +120,13 @@ def run(ctx):
                         if not target or not any(abs(z - target[0]) < 1e-9 for z in zero):
                             wit = {"why": "the master curve is not zero at the reference level", "step": step_s, "k": k,
                                    "reference": ref, "zero_at_mm": zero[:3]}
+                        else:
+                            # choosing the origin moves the whole curve by one constant (theorem reorigin_common_shift)
+                            d = [v - v0 for (_z, v), (_z0, v0) in zip(rows, rows0)]
+                            if len(rows) != len(rows0) or [z for z, _v in rows] != [z for z, _v in rows0] or max(d) - min(d) > 1e-6 * scale:
+                                wit = {"why": "with a reference level the curve is not the curve without one moved by a constant",
+                                       "step": step_s, "k": k, "reference": ref, "rows": len(rows), "rows_without_reference": len(rows0),
+                                       "spread_of_differences": (max(d) - min(d)) if d else None}
                     ok_model = m["outcome"] == "ok" and m["index"] == k
                     ctx.obligation(ob, wit is None and ok_model)
                     if wit is not None:
